@@ -11,7 +11,39 @@ import (
 	simdjson "github.com/minio/simdjson-go"
 )
 
+// after every edit of a C13/C14 history: the serialize round trip reflects the
+// edited document
+func serializeAfterEdit(c *Ctx, h *history, info map[string]interface{}) {
+	if len(h.ops)%2 == 1 && len(h.pj.Tape) > 40 {
+		return
+	}
+	want, werr := dumpDoc(h.pj)
+	if werr != nil {
+		return
+	}
+	s := simdjson.NewSerializer()
+	s.CompressMode(compModes[len(h.ops)%4])
+	blob, pan := safeSerialize(s, h.pj)
+	if pan != "" {
+		info["panic"] = pan
+		c.Violate("panic", "Serialize panicked on an edited tape", "after-edit-ser-panic", info)
+		return
+	}
+	pj2, err, pan2 := safeDeserialize(s, blob, nil)
+	if err != nil || pan2 != "" {
+		info["error"] = fmt.Sprint(err, pan2)
+		c.Violate("roundtrip", "Deserialize failed on the serialized form of an edited tape", "after-edit-roundtrip-fail", info)
+		return
+	}
+	got, gerr := dumpDoc(pj2)
+	if gerr != nil || got != want {
+		info["want"], info["got"] = trunc(want, 300), trunc(got, 300)
+		c.Violate("roundtrip", "serialize round trip of an edited tape denotes a different document", "after-edit-roundtrip-doc", info)
+	}
+}
+
 func init() {
+	extraAfterEdit = serializeAfterEdit
 	checks["C11"] = checkC11
 	deserWFProbe = func(c *Ctx) { c.serRoundTrips(c.N(150, 1500), "C17-deser") }
 }
